@@ -534,6 +534,14 @@ def gen_scenarios(rng, tier):
                              "seed": 777 + i, "linger_ms": 4000})
         scs.append({"id": "t%d-%dn-%s-%s" % (i, n, e, x), "nodes": n, "entry": e, "exit": x, "conns": conns,
                     "echo_burst": 24 if (x in ("clientfwd", "agent") or i == 0) else 0})
+    # endpoint ids with characters a URL gives a meaning to, through the real client.Dialer / client.Upstream (C01: never delivered
+    # to an upstream of a different endpoint): next to each such endpoint listen the ids a careless URL construction would
+    # fold it into - their listeners must never see a connection
+    odd = [("db?replica", ["db"]), ("cach%65", ["cache", "cach"]), ("a#frag", ["a"]), ("x y", ["x"]), ("q?x=1&y=2", ["q"])]
+    for k, (epid, decoys) in enumerate(odd if tier != "quick" else [odd[rng.randrange(len(odd))], odd[0]][:2]):
+        scs.append({"id": "odd%d" % k, "nodes": 1 + k % 2, "entry": "dialer", "exit": "listener", "endpoint": epid, "decoys": decoys,
+                    "conns": [{"up": [5, 100], "down": [7], "rbuf_up": [64], "rbuf_down": [64], "closer": "client", "mode": "full", "seed": 50 + k}],
+                    "echo_burst": 0})
     if tier != "quick":
         scs += slow_consumer_scenarios()
     return scs
@@ -547,6 +555,8 @@ def run_tunnel(binary, wd, scenarios, tag="tunnel"):
 
 
 def monitor_scenario(sc, so):
+    if so.get("decoy_hits"):
+        return {"sig": "tunnel-wrong-endpoint", "why": "scenario %s: connections dialled to endpoint %r were delivered to the listener of endpoint %r" % (sc["id"], sc.get("endpoint"), so["decoy_hits"][0])}
     if so.get("panic"):
         return {"sig": "tunnel-panic", "why": "scenario %s: %s" % (sc["id"], so["panic"])}
     for i, (spec, co) in enumerate(zip(sc["conns"], so["conns"])):
@@ -570,6 +580,8 @@ def monitor_scenario(sc, so):
         if spec.get("linger_ms") and not co.get("linger_closed"):
             return {"sig": "tunnel-half-released", "why": "%s: the client closed the tunnel; the service behind the %s exit saw end-of-stream but could still write to its connection %d ms later - the leg to the service was not released"
                     % (where, sc["exit"], co.get("linger_ms", 0))}
+    if so.get("decoy_hits"):
+        return {"sig": "tunnel-wrong-endpoint", "why": "scenario %s: connections dialled to endpoint %r were delivered to the listener of endpoint %r" % (sc["id"], sc.get("endpoint"), so["decoy_hits"][0])}
     if so.get("burst_bad"):
         return {"sig": "tunnel-burst", "why": "scenario %s: %d clients connected at the same moment to an echoing upstream end: %s" % (sc["id"], so.get("burst_n", 0), "; ".join(so["burst_bad"]))}
     if len(so["conns"]) != len(sc["conns"]) or so.get("failed"):
